@@ -286,6 +286,10 @@ m("C11-r10", "C11", "libwallet/src/internal/tx.rs", "\t\t.find(|t| t.tx_type == 
 m("C06-r8rel", "C06", "libwallet/src/internal/scan.rs", "\tfor mut o in released {\n\t\to.status = OutputStatus::Unspent;\n\t\tbatch.save(o)?;\n\t}\n", "\tdrop(released);\n", "C06.R8")
 m("C06-r9", "C06", "libwallet/src/internal/scan.rs", "\t// restore labels, account paths and child derivation indices\n", "\t// restore labels, account paths and child derivation indices\n\tif delete_unconfirmed {\n\t\tfound_parents.clear();\n\t}\n", "C06.R9")
 
+m("C19-r3g", "C19", "libwallet/src/api_impl/owner.rs", "\t\t\t.find(|t| t.id == i && t.parent_key_id == parent_key_id);", "\t\t\t.find(|t| t.id == i);", "C19.R3")
+m("C03-r3rx", "C03", "libwallet/src/api_impl/foreign.rs", "\t\tif t.tx_type == TxLogEntryType::TxReceivedCancelled {\n\t\t\treturn Err(Error::TransactionWasCancelled(ret_slate.id.to_string()));\n\t\t}\n", "", "C03.R3")
+m("C18-r9", "C18", "libwallet/src/api_impl/owner.rs", "\tupdate_outputs(wallet_inst.clone(), keychain_mask, true)?;\n\tlet tip = {", "\tupdate_outputs(wallet_inst.clone(), keychain_mask, start_height.map_or(true, |h| h <= 1))?;\n\tlet tip = {", "C18.R9")
+
 
 def for_property(prop):
     return [x for x in M if x["property"] == prop]
